@@ -449,6 +449,19 @@ func apiSeqLine(t []string) string {
 				}
 			}},
 			{"Attrs.ToJSON", func() { _, _ = vm.Attrs.ToJSON() }},
+			// the remaining observers and the "run while busy" entry point of the public API
+			{"Observers", func() { _ = vm.IsCalculateExists(); _ = vm.GetParsedOffset(); _ = vm.StackTop(); _ = vm.Depth(); _, _ = vm.GetCurSeed() }},
+			{"RunExpr.local", func() {
+				if v, _ := vm.RunExpr(src, true); v != nil {
+					_ = v.ToString()
+				}
+			}},
+			{"RunExpr.fresh", func() {
+				if v, _ := vm.RunExpr(src, false); v != nil {
+					_ = v.ToRepr()
+				}
+			}},
+			{"Run.after", func() { _ = vm.Run(src); _ = vm.GetDetailText() }},
 		}
 		for _, c := range calls {
 			steps++
